@@ -130,12 +130,60 @@ type ttlClass struct {
 var liveTTL = []ttlClass{{0, 0}, {0, 12345}, {4294967295, 0}, {1, 2000000000}, {1000000, 1999000000}}
 var deadTTL = []ttlClass{{1, 0}, {100, 1000}, {1, 1000000000}, {4294967295 / 4, 10}}
 
+// clockBase is where the virtual clock of a clocked case starts: far from every expiry instant of the TTL
+// classes above and below the wall clock, so records stamped by Put never expire in such a case.
+const clockBase = 1600000000
+
+// clockGen is the generator-side state of a clocked case: the virtual time reached so far and the expiry
+// instants of the records generated so far. A value lives inside one rapid.Custom call.
+type clockGen struct {
+	Now int64
+	Exp []int64
+}
+
+// nearPut draws an explicitly stamped put whose expiry instant lies a few seconds around the virtual time.
+func (g *clockGen) nearPut(t *rapid.T, b, k string) Op {
+	e := rapid.SampledFrom([]int64{-2, -1, 0, 1, 1, 2, 2, 3, 5, 9}).Draw(t, "expin")
+	d := rapid.SampledFrom([]int64{0, 1, 3, 60, 100000}).Draw(t, "age")
+	if d+e < 1 {
+		d = 1 - e // TTL 0 would mean "never expires"
+	}
+	g.Exp = append(g.Exp, g.Now+e)
+	return Op{K: "putts", B: S(b), Key: S(k), V: S(genValue().Draw(t, "v")), TTL: uint32(d + e), TS: uint64(g.Now - d)}
+}
+
+// step draws the next clock step: the time only moves forward, preferably onto, just before or just after
+// an expiry instant that still lies ahead.
+func (g *clockGen) step(t *rapid.T) Step {
+	var cands []int64
+	for _, x := range g.Exp {
+		for _, y := range []int64{x - 1, x, x + 1} {
+			if y > g.Now {
+				cands = append(cands, y)
+			}
+		}
+	}
+	cands = append(cands, g.Now+1, g.Now+2)
+	g.Now = rapid.SampledFrom(cands).Draw(t, "clockto")
+	return Step{K: "clock", T: g.Now}
+}
+
 // genKVWrite draws a put/putts/del op.
 func genKVWrite(buckets, keys []string, allowFill bool) *rapid.Generator[Op] {
+	return genKVWriteClocked(buckets, keys, allowFill, nil)
+}
+
+// genKVWriteClocked is genKVWrite for a case that may run under the virtual clock (clk != nil): half of its
+// expiring puts then expire within seconds of the virtual time.
+func genKVWriteClocked(buckets, keys []string, allowFill bool, clk *clockGen) *rapid.Generator[Op] {
 	return rapid.Custom(func(t *rapid.T) Op {
 		b := rapid.SampledFrom(buckets).Draw(t, "b")
 		k := rapid.SampledFrom(keys).Draw(t, "k")
-		switch rapid.IntRange(0, 9).Draw(t, "wkind") {
+		wk := rapid.IntRange(0, 9).Draw(t, "wkind")
+		if clk != nil && (wk == 2 || wk == 4 || wk == 5) {
+			return clk.nearPut(t, b, k)
+		}
+		switch wk {
 		case 0, 1:
 			return Op{K: "del", B: S(b), Key: S(k)}
 		case 2, 3:
